@@ -752,7 +752,11 @@ fn apply_fold_specific_filter<'query, AdapterT: Adapter<'query>>(
         let value = match tagged_value {
             TaggedValue::Some(value) => value,
             TaggedValue::NonexistentOptional => {
-                unreachable!("while applying fold-specific filter, the @fold turned out to not exist: {ctx:?}")
+                // The @fold is inside an @optional scope that did not exist, so there is
+                // nothing to filter: the context has no active vertex and the filter
+                // passes, like all other filters inside a nonexistent @optional scope.
+                debug_assert!(ctx.within_nonexistent_optional());
+                FieldValue::Null
             }
         };
         ctx.values.push(value);
